@@ -137,10 +137,13 @@ pub fn enumeral_lookup(m: &Model, ctx: &mut Ctx, rule: &str) {
                 let t = tld_of(n, ms);
                 if name == ".iter" { Val::Tuple(vec![Val::Str(n.to_string()), t]) } else { t }
             }).collect()))),
+            // the three definitions are types: no value assignment of any name
+            (".get", Some(Val::Opaque(s))) if s == "tlds" => Some(Ok(Val::none())),
             _ => None,
         }
     };
-    let inl = inline_all(m, &["ToplevelDefinition"]);
+    let mut inl = inline_all(m, &["ToplevelDefinition"]);
+    inl.extend(inline_table(m, &["resolve_value_reference"]));
     let ev = Evaluator { consts: &consts, call_hook: &hook, inline: Some(&inl) };
     let params: Vec<String> = f.sig.inputs.iter().filter_map(|a| match a { syn::FnArg::Typed(t) => Some(tok(&t.pat)), _ => None }).collect();
     for (nested, id) in [(false, "same"), (true, "same"), (false, "other"), (true, "other")] {
@@ -200,10 +203,14 @@ pub fn inline_named_number(m: &Model, ctx: &mut Ctx, rule: &str) {
     let hook = |_: &Evaluator, name: &str, _a: &[Val]| -> Option<Result<Val, String>> {
         match name {
             ".int_type" => Some(Ok(Val::Sym("INT".into()))),
+            // no value assignment of that name exists in this scenario
+            ".get" if matches!(_a.first(), Some(Val::Opaque(s)) if s == "tlds") => Some(Ok(Val::none())),
             _ => None,
         }
     };
-    let ev = Evaluator { consts: &consts, call_hook: &hook, inline: None };
+    // the helper that follows value references (if the crate has one) is the crate's own code
+    let inl = inline_table(m, &["resolve_value_reference"]);
+    let ev = Evaluator { consts: &consts, call_hook: &hook, inline: Some(&inl) };
     let named = |n: &str, fields: Vec<(&str, Val)>| Val::Ctor(n.to_string(), vec![], fields.into_iter().map(|(k, v)| (k.to_string(), v)).collect::<Map<_, _>>());
     let dv = |n: &str, v: i128| named("DistinguishedValue", vec![("name", Val::Str(n.into())), ("value", Val::int(v))]);
     let ty = Val::Ctor("Integer".into(), vec![named("Integer", vec![("distinguished_values", Val::some(Val::List(vec![dv("first", 1), dv("limit", 5)]))), ("constraints", Val::List(vec![]))])], Map::new());
@@ -227,6 +234,82 @@ pub fn inline_named_number(m: &Model, ctx: &mut Ctx, rule: &str) {
                 }
             }
             Err(e) => ctx.fail_closed(rule, &format!("[inline named number {}]: {}", id, e)),
+        }
+    }
+}
+
+/// C07.ref: `b T ::= a` — an identifier that is no named number / enumeral of the governing type but the name of another
+/// value assignment denotes that assignment's value. The generators render a value that is still a bare reference as
+/// `T(NAME)`, which is not the value (and does not type-check for INTEGER and ENUMERATED governors), so the arm of
+/// ASN1Value::link_with_type selected for (governor, reference) is evaluated with a definitions table in which the name is a
+/// value assignment: afterwards the value is that assignment's value, not the reference.
+pub fn value_reference(m: &Model, ctx: &mut Ctx, rule: &str) {
+    use std::collections::BTreeMap as Map;
+    let Some(f) = m.fns.iter().find(|f| f.name == "link_with_type" && f.self_ty.as_deref() == Some("ASN1Value")) else {
+        ctx.fail_closed(rule, "anchor not found: ASN1Value::link_with_type");
+        return;
+    };
+    ctx.func(&f.key);
+    let Some(mt) = model::matches_in(&f.block).into_iter().max_by_key(|mt| mt.arms.len()) else {
+        ctx.fail_closed(rule, "link_with_type: no match");
+        return;
+    };
+    let consts = const_resolver(m);
+    let named = |n: &str, fields: Vec<(&str, Val)>| Val::Ctor(n.to_string(), vec![], fields.into_iter().map(|(k, v)| (k.to_string(), v)).collect::<Map<_, _>>());
+    let enum_tld = {
+        let members = Val::List(["first", "same"].iter().enumerate().map(|(i, m)| named("Enumeral", vec![("name", Val::Str(m.to_string())), ("index", Val::int(i as i128))])).collect());
+        let ty = Val::Ctor("Enumerated".into(), vec![named("Enumerated", vec![("members", members)])], Map::new());
+        Val::Ctor("Type".into(), vec![named("ToplevelTypeDefinition", vec![("name", Val::Str("E".into())), ("ty", ty)])], Map::new())
+    };
+    let referenced = Val::Ctor("Value".into(), vec![named("ToplevelValueDefinition", vec![("name", Val::Str("other".into())), ("value", Val::Sym("<value of other>".into()))])], Map::new());
+    let defs: Vec<(&str, Val)> = vec![("E", enum_tld), ("other", referenced)];
+    let hook = move |_: &Evaluator, name: &str, a: &[Val]| -> Option<Result<Val, String>> {
+        match (name, a.first()) {
+            (".iter", Some(Val::Opaque(s))) if s == "tlds" => Some(Ok(Val::List(defs.iter().map(|(n, t)| Val::Tuple(vec![Val::Str(n.to_string()), t.clone()])).collect()))),
+            (".values", Some(Val::Opaque(s))) if s == "tlds" => Some(Ok(Val::List(defs.iter().map(|(_, t)| t.clone()).collect()))),
+            (".get", Some(Val::Opaque(s))) if s == "tlds" => match a.get(1) {
+                Some(Val::Str(k)) => Some(Ok(defs.iter().find(|(n, _)| n == k).map(|(_, v)| Val::some(v.clone())).unwrap_or(Val::none()))),
+                _ => Some(Err("tlds.get with a key that is not a name".into())),
+            },
+            // re-linking the substituted value is the same function again: not followed
+            (".link_with_type", _) => Some(Ok(Val::Ctor("Ok".into(), vec![Val::Unit], Map::new()))),
+            (".int_type", _) => Some(Ok(Val::Sym("INT".into()))),
+            _ => None,
+        }
+    };
+    let mut inl = inline_all(m, &["ToplevelDefinition"]);
+    inl.extend(inline_table(m, &["resolve_value_reference"]));
+    let ev = Evaluator { consts: &consts, call_hook: &hook, inline: Some(&inl) };
+    let params: Vec<String> = f.sig.inputs.iter().filter_map(|a| match a { syn::FnArg::Typed(t) => Some(tok(&t.pat)), _ => None }).collect();
+    let dv = |n: &str, v: i128| named("DistinguishedValue", vec![("name", Val::Str(n.into())), ("value", Val::int(v))]);
+    let governors: Vec<(&str, Val)> = vec![
+        ("INTEGER", Val::Ctor("Integer".into(), vec![named("Integer", vec![("distinguished_values", Val::none()), ("constraints", Val::List(vec![]))])], Map::new())),
+        ("INTEGER { first(1) }", Val::Ctor("Integer".into(), vec![named("Integer", vec![("distinguished_values", Val::some(Val::List(vec![dv("first", 1)]))), ("constraints", Val::List(vec![]))])], Map::new())),
+        ("ENUMERATED { first, same }", Val::Ctor("Enumerated".into(), vec![Val::Opaque("enumerated".into())], Map::new())),
+        ("BOOLEAN", Val::Ctor("Boolean".into(), vec![Val::Opaque("boolean".into())], Map::new())),
+    ];
+    for (label, ty) in governors {
+        let key = format!("value-reference:{}", label.split(' ').next().unwrap_or(label));
+        let key = if label.contains("first(1)") { format!("{}-with-named-numbers", key) } else { key };
+        ctx.oblige(rule, &key, true);
+        let value = named("ElsewhereDeclaredValue", vec![("identifier", Val::Str("other".into())), ("parent", Val::none()), ("module", Val::none())]);
+        let mut env = Env::new();
+        env.insert("self".into(), value.clone());
+        env.insert(params.first().cloned().unwrap_or("tlds".into()), Val::Opaque("tlds".into()));
+        env.insert(params.get(1).cloned().unwrap_or("ty".into()), ty.clone());
+        env.insert(params.get(2).cloned().unwrap_or("type_name".into()), if label.starts_with("ENUM") { Val::some(Val::Str("E".into())) } else { Val::none() });
+        let r = ev.select_arm(&mt, &Val::Tuple(vec![ty.clone(), value]), &env).and_then(|(i, mut e2)| {
+            ev.eval(&mt.arms[i].body, &mut e2)?;
+            Ok((e2.get("self").map(|v| v.show()).unwrap_or_default(), span_line(&mt.arms[i])))
+        });
+        match r {
+            Ok((sh, line)) => {
+                if !sh.contains("<value of other>") {
+                    ctx.violate(rule, &key, &f.file, line,
+                        &format!("`b T ::= other` with T ::= {} and `other` a value assignment: after linking the value is `{}` — the reference is not replaced by the referenced assignment's value, and the generators render a bare reference as `T(OTHER)`", label, sh.chars().take(100).collect::<String>()));
+                }
+            }
+            Err(e) => ctx.fail_closed(rule, &format!("[{}]: {}", key, e)),
         }
     }
 }
@@ -739,6 +822,7 @@ Not applicable (run-time values): resolution of references, nested CHOICE/SEQUEN
     named_lookup(m, ctx, "C07.named");
     enumeral_lookup(m, ctx, "C07.named");
     inline_named_number(m, ctx, "C07.named");
+    value_reference(m, ctx, "C07.ref");
     cstring_end(m, ctx, "C07.cstring");
     single_element_list(m, ctx, "C07.list");
     nesting(m, ctx, "C07.nest");
